@@ -167,7 +167,8 @@ func (cl *Loader) load(file string) (config map[string]interface{}, err error) {
 				if cl.imports[importFile] {
 					continue
 				}
-				fi, err := os.Stat(importFile)
+				var fi os.FileInfo
+				fi, err = os.Stat(importFile)
 				if err != nil {
 					return nil, fmt.Errorf("%s: %v", importFile, err)
 				}
